@@ -9,12 +9,21 @@ import subprocess
 from common import ENV, NCPU, REPO, TARGET, VERIF, WORK, MachineryError, log, repo_lock, run, sha, write_if_changed
 
 _anchor = {}
+import threading as _threading
+_anchor_lock = _threading.Lock()
 
 
 def build_anchor(force=False):
     """Build /repo's derive (path dependency => current working tree) and return the dylib path."""
     if "dylib" in _anchor and not force:
         return _anchor["dylib"]
+    with _anchor_lock:
+        if "dylib" in _anchor and not force:
+            return _anchor["dylib"]
+        return _build_anchor_locked()
+
+
+def _build_anchor_locked():
     adir = os.path.join(VERIF, "engines", "anchor")
     if REPO != "/repo":
         # a snapshot of the repository (vp run --with-repo): build a private copy of the anchor against it
